@@ -161,8 +161,22 @@ def gen_layout(rng, idx):
         if rng.random() < 0.6:
             user_map[p] = rng.randint(0, 9)
     # disk: the same tree (documents, auxiliary and other files) + the archive
-    zrel = rng.choice(['arch.zip', 'arch.zae', 'pk/arch.zip', 'a/b/arch.ZIP'])
+    # the archive's name on disk is independent of its content: archive names, document names, others
+    zrel = rng.choice(['arch.zip', 'arch.zae', 'pk/arch.zip', 'a/b/arch.ZIP', 'arch.kmz', 'archive', 'pk/arch.xml',
+                       'zipped.dae', 'Zipped.DAE', 'pk/zipped.Dae', 'arch.dae.zip', 'arch.bin'])
+    while zrel in used:
+        zrel = 'z' + zrel
     disk = [(n, k) for n, k in docs + aux + others if n != zrel]
+    # ... and so is a plain document's: copies of the documents under archive-like and other names
+    renamed = []
+    for n, k in docs:
+        if rng.random() < 0.6:
+            base = n.split('/')[:-1]
+            nm = '/'.join(base + [rng.choice(['plain.zip', 'plain.zae', 'plain.ZIP', 'plain', 'plain.xml', 'plain.kmz',
+                                              'plain.dae.bak'])])
+            if nm not in used and nm != zrel and nm not in [r[0] for r in renamed]:
+                renamed.append((nm, k))
+    disk += renamed
     # a decoy-free copy of a document in a different directory as well
     disk.append((zrel, ['zip']))
     # loads
@@ -184,8 +198,10 @@ def gen_layout(rng, idx):
                     continue
                 add(src, zrel, zf, loader, ignore=rng.random() < 0.3)
     add('file', zrel, None, False)
+    add('file', zrel, rng.choice(zfs), True)
+    add('abspath', zrel, None, False)
     add('abspath', zrel, rng.choice(zfs), rng.random() < 0.3)
-    for n, k in docs:
+    for n, k in docs + renamed:
         for src in ('path', 'bytes', 'file', 'abspath'):
             for loader in (False, True):
                 if loader and rng.random() < 0.5:
@@ -392,7 +408,7 @@ def run(ctx):
     # distribution
     dist = {'loads': 0, 'by_source': {}, 'with_user_loader': 0, 'with_zip_filename': 0, 'ignore': 0,
             'load_outcomes': {}, 'image_outcomes': {}, 'decoy_first': 0, 'only_decoys': 0, 'no_dae': 0,
-            'several_docs': 0, 'uppercase_ext_selected': 0, 'depth_of_selected': {}, 'image_path_forms': {}}
+            'several_docs': 0, 'uppercase_ext_selected': 0, 'archive_file_names': {}, 'plain_documents_under_other_names': 0, 'depth_of_selected': {}, 'image_path_forms': {}}
     seen_h = set()
     for c, r in zip(cases, results):
         seen_h.add(core.canon_hash([c['members'], c['images'], c['loads']]))
@@ -404,6 +420,9 @@ def run(ctx):
             dist['only_decoys'] += 1
         if not dae:
             dist['no_dae'] += 1
+        ext = os.path.splitext(c['zip'])[1] or '(none)'
+        dist['archive_file_names'][ext] = dist['archive_file_names'].get(ext, 0) + 1
+        dist['plain_documents_under_other_names'] += sum(1 for d in c['disk'] if d[1][0] == 'doc' and d[0].split('/')[-1].startswith('plain'))
         if len([m for m in c['members'] if m[1][0] == 'doc']) > 1:
             dist['several_docs'] += 1
         for p in c['images']:
